@@ -37,7 +37,7 @@ RULE = (
     "already consumed), and contains a repeat or a second computation."
 )
 ASSUMPTIONS = ["the reference table itself comes from the library (ascending requests on a separate computation); correctness of values is C01-C05's job"]
-REQUIRED_CLASSES = {"all": ["op:slice", "op:new", "op:repeat", "op:get_fresh", "mode=nonhermitian", "mode=implicit", "repr=sparse", "repr=sympy", "selection=mask"]}
+REQUIRED_CLASSES = {"all": ["op:slice", "op:new", "op:repeat", "op:get_fresh", "mode=nonhermitian", "mode=implicit", "repr=sparse", "repr=sympy", "selection=mask", "input=blockseries-data"]}
 
 SERIES = ["H_tilde", "U", "U_inv"]
 
@@ -74,7 +74,7 @@ def strategy(tier):
                 ops.append(["repeat", draw(st.integers(0, 50))])
             else:
                 ops.append(["new"])
-        return {"problem": p, "ops": ops}
+        return {"problem": p, "ops": ops, "input_form": draw(st.sampled_from(["dict", "dict", "blockseries_data"]))}
 
     return cases()
 
@@ -161,11 +161,32 @@ def check_case(case, enforce_all=False):
     else:
         out.labels = bd_checks.labels_for(p) + ["mode=hermitian" if p["hermitian"] else "mode=nonhermitian"]
         ham, kwargs = library_input(p)
+    data_form = case.get("input_form") == "blockseries_data" and "implicit" not in case["problem"] and p["repr"] == "dense"
+    if data_form:
+        # the caller builds the Hamiltonian as BlockSeries(data=d) from a dictionary of blocks that it keeps (and reuses
+        # for every computation); neither d nor its values may change
+        from pymablock.series import BlockSeries
+        from vlib.gen_matrix import states_of
+
+        st_ = states_of(p)
+        d = {}
+        for o, M in ham.items():
+            A = M.toarray() if hasattr(M, "toarray") else np.asarray(M)
+            for i in range(nb):
+                for j in range(nb):
+                    blk = A[np.ix_(st_[i], st_[j])]
+                    if np.any(blk):
+                        d[(i, j) + tuple(o)] = blk.copy()
+        ham = d
+        kwargs = {k_: v for k_, v in kwargs.items() if k_ != "subspace_indices"}
+        out.labels.append("input=blockseries-data")
     snap = _snapshot_inputs(ham, kwargs)
 
     def compute(h, kw):
         with warnings.catch_warnings():
             warnings.simplefilter("ignore")
+            if data_form:
+                h = BlockSeries(data=h, shape=(nb, nb), n_infinite=k, name="H_user")
             return dict(zip(SERIES, block_diagonalize(h, **kw)))
 
     def element(series, idx):
